@@ -56,18 +56,20 @@ def emit(scn, d, big_pad=0):
     paths = []
     for o, secs in enumerate(scn["objs"]):
         lines = []
+        base = {}          # (k) -> (input section name, offset of part k inside that input section)
+        fill = {}
         for k, sec in enumerate(secs):
-            # unique input section name per (o,k) mapping to the chosen output section
+            # input section name: parts that share a name are one input section for the assembler
             iname = f".rodata.str1.{o}_{k}" if sec["name"] == ".rodata" else sec["name"]
+            base[k] = (iname, fill.get(iname, 0))
             lines.append(f'.section {iname},"aMS",@progbits,1')
-            lines.append(f".Lsec{o}_{k}:")
             off = 0
             for i, s in enumerate(sec["strings"]):
                 lines.append(f".globl str_{o}_{k}_{off}")
                 lines.append(f"str_{o}_{k}_{off}:")
-                esc = s
-                lines.append(f'    .string "{esc}"')
+                lines.append(f'    .string "{s}"')
                 off += len(s) + 1
+            fill[iname] = fill.get(iname, 0) + off
         lines.append('.section .data.reftab,"aw",@progbits')
         lines.append(f'    .ascii "{asm.marker("reftab%d" % o)}"')
         for (ro, k, off, kind) in scn["refs"]:
@@ -83,7 +85,9 @@ def emit(scn, d, big_pad=0):
                     start += len(s) + 1
                 lines.append(f"    .quad str_{o}_{k}_{start} + {off - start}")
             else:
-                lines.append(f"    .quad .Lsec{o}_{k} + {off}")
+                # the section symbol plus an offset (gas resolves a section name to its section symbol)
+                iname, b = base[k]
+                lines.append(f"    .quad {iname} + {b + off}")
         if o == 0:
             lines.append('.section .text,"ax",@progbits\n.globl _start\n_start:')
             lines.append("    lea reftab_anchor(%rip), %rax")
